@@ -18,7 +18,12 @@ def coins_to_satoshis(coins):
 
 
 def satoshis_to_coins(satoshis):
-    coins = '{:.8f}'.format(satoshis / COIN).rstrip('0')
+    if isinstance(satoshis, int):
+        # exact integer formatting: float division is off by a dewie from ~9e15 dewies up
+        whole, fractional = divmod(abs(satoshis), COIN)
+        coins = f"{'-' if satoshis < 0 else ''}{whole}.{fractional:08d}".rstrip('0')
+    else:
+        coins = '{:.8f}'.format(satoshis / COIN).rstrip('0')
     if coins.endswith('.'):
         return coins+'0'
     else:
